@@ -191,6 +191,8 @@ def replay_file(prop: str, path: str):
         mod.check_case(case)
     except Violation as v:
         return v.signature, v.detail
+    except Inconclusive as ex:
+        return "__inconclusive__", {"reason": str(ex)}
     return None, None
 
 
@@ -235,6 +237,9 @@ def replay_phase(prop: str):
             continue
         sig, detail = replay_file(prop, wit)
         replayed += 1
+        if sig == "__inconclusive__":
+            notes.append(f"note: replay {wit} is inconclusive ({detail.get('reason')})")
+            continue
         if k.get("status") == "open":
             if sig is not None and fnmatch.fnmatchcase(sig, k["signature"]):
                 known_lines.append(f"KNOWN-FINDING: property={prop} {k['what']}")
@@ -254,6 +259,9 @@ def replay_phase(prop: str):
                 continue
             sig, detail = replay_file(prop, rel)
             replayed += 1
+            if sig == "__inconclusive__":
+                notes.append(f"note: replay {rel} is inconclusive ({detail.get('reason')})")
+                continue
             if sig is not None and match_known(known, prop, sig) is None:
                 violations.append((sig, rel))
     return violations, known_lines, replayed, notes
@@ -287,6 +295,9 @@ def main(prop: str, tier: str, seed: int, replay: str | None = None) -> int:
         if sig == "__harness__":
             print(detail, file=sys.stderr)
             return 2
+        if sig == "__inconclusive__":
+            print(f"replay {replay}: inconclusive ({detail.get('reason')}): the case is outside the domain the check decides")
+            return 0
         if sig is None:
             print(f"replay {replay}: property held")
             return 0
